@@ -358,6 +358,7 @@ func (s *Service) stopGraceful(ctx context.Context, rp *runnablePipeline, reason
 		Msg("gracefully stopping pipeline")
 	// mark the run as deliberately stopped before any node is asked to stop,
 	// see the stopRequested field doc
+	prevStopRequested := rp.stopRequested.Load()
 	switch {
 	case reason == nil:
 		rp.stopRequested.Store(stopRequestedByUser)
@@ -379,9 +380,11 @@ func (s *Service) stopGraceful(ctx context.Context, rp *runnablePipeline, reason
 		}
 	}
 	if stoppable > 0 && len(errs) == stoppable {
-		// no node began stopping (e.g. the run is already dead and waits for
-		// its recovery restart): nothing was stopped on purpose
-		rp.stopRequested.Store(0)
+		// no node began stopping because of THIS request (e.g. the run is
+		// already dead and waits for its recovery restart, or an earlier
+		// request already stopped every node and still drains): this request
+		// stopped nothing on purpose, an earlier one may have
+		rp.stopRequested.Store(prevStopRequested)
 	}
 
 	return cerrors.Join(errs...)
